@@ -8,6 +8,7 @@ import (
 	"os"
 	"path/filepath"
 	"strings"
+	"time"
 
 	abci "github.com/tendermint/tendermint/abci/types"
 	tmcons "github.com/tendermint/tendermint/consensus"
@@ -148,6 +149,8 @@ func (r *Replica) Activate() {
 // Start boots the node from its disk: real NewApp, generated Prepare half, real Handshaker.
 // It returns a *SimCrash error if the scheduler crashed the node during the handshake.
 func (r *Replica) Start() (err error) {
+	t0 := time.Now()
+	defer func() { Timing["start"] += time.Since(t0) }()
 	cfg, err := readNodeConfig(r.Disk.Root())
 	if err != nil {
 		return fmt.Errorf("read config: %w", err)
@@ -251,6 +254,9 @@ func (r *Replica) feedIndex() {
 	}
 }
 
+// Timing accumulates wall time per harness phase (diagnostics only).
+var Timing = map[string]time.Duration{}
+
 // HarnessError is a panic value meaning "the simulator is broken", never a verdict.
 type HarnessError struct{ Msg string }
 
@@ -259,10 +265,26 @@ func (h HarnessError) Error() string { return "harness error: " + h.Msg }
 // crashNow implements process death: byte-copy the data directory while the DB is open,
 // abandon every in-memory object, point the disk at the copy.
 func (r *Replica) crashNow() {
+	t0 := time.Now()
+	defer func() { Timing["crashNow"] += time.Since(t0) }()
 	old := r.Disk.Root()
 	r.Disk.Gen++
-	if err := copyTree(old, r.Disk.Root()); err != nil {
-		panic(HarnessError{"copy data dir: " + err.Error()})
+	// The copy must be a point-in-time image, as a killed process leaves behind. The simulation is
+	// single-threaded, so the only writer left is goleveldb's background compaction: repeat the copy
+	// until the directory listing (names, sizes, mtimes) is identical before and after it.
+	for try := 0; ; try++ {
+		before := listTree(old)
+		os.RemoveAll(r.Disk.Root())
+		if err := copyTree(old, r.Disk.Root()); err != nil {
+			panic(HarnessError{"copy data dir: " + err.Error()})
+		}
+		if listTree(old) == before {
+			break
+		}
+		if try > 200 {
+			panic(HarnessError{"data directory never quiesced while copying"})
+		}
+		time.Sleep(2 * time.Millisecond)
 	}
 	if r.App != nil {
 		r.App.VerifClose()
@@ -287,6 +309,18 @@ func (r *Replica) Shutdown() {
 	}
 	r.App, r.Proxy, r.Exec = nil, nil, nil
 	r.Up = false
+}
+
+func listTree(root string) string {
+	var b strings.Builder
+	filepath.Walk(root, func(p string, info os.FileInfo, err error) error {
+		if err != nil || info.IsDir() {
+			return nil
+		}
+		fmt.Fprintf(&b, "%s|%d|%d\n", p, info.Size(), info.ModTime().UnixNano())
+		return nil
+	})
+	return b.String()
 }
 
 func copyTree(src, dst string) error {
@@ -376,3 +410,44 @@ func (r *Replica) Alive() bool {
 	return r.App.VerifAlive()
 }
 
+
+// RawBlock drives one block directly over ABCI (raw mode: no Tendermint validation), used for shadow
+// twins that must see the same header with a different transaction list. Returns the recorded attempt.
+func (r *Replica) RawBlock(cb *ChainBlock, begin abci.RequestBeginBlock, txs [][]byte) *BlockAttempt {
+	if r.BlockStore.Height() < cb.Block.Height {
+		r.BlockStore.SaveBlock(cb.Block, cb.Parts, cb.Seen)
+	}
+	r.iapp.BeginBlock(begin)
+	att := r.Tr.cur
+	var results []*abci.ResponseDeliverTx
+	for _, tx := range txs {
+		res := r.iapp.DeliverTx(abci.RequestDeliverTx{Tx: tx})
+		rc := res
+		results = append(results, &rc)
+	}
+	r.iapp.EndBlock(abci.RequestEndBlock{Height: cb.Block.Height})
+	r.iapp.Commit()
+	if len(txs) > 0 {
+		b := txindex.NewBatch(int64(len(txs)))
+		for i, tx := range txs {
+			_ = b.Add(&tmtypes.TxResult{Height: cb.Block.Height, Index: uint32(i), Tx: tx, Result: *results[i]})
+		}
+		_ = r.Indexer.AddBatch(b)
+	}
+	return att
+}
+
+// NewShadow creates and boots (InitChain through the real Handshaker) a replica that is not fed by
+// the driver.
+func (c *Cluster) NewShadow(spec ReplicaSpec, index int) (*Replica, error) {
+	spec.Index = index
+	r, err := NewReplica(c, spec, filepath.Join(c.BaseDir, fmt.Sprintf("shadow%d", index)))
+	if err != nil {
+		return nil, err
+	}
+	if err := r.Start(); err != nil {
+		return nil, err
+	}
+	c.Shadows = append(c.Shadows, r)
+	return r, nil
+}
